@@ -190,7 +190,7 @@ def repo_call(ex, st, key, node):
     from .spec import REGISTRY
     variant = ex.c.call_variant.get(key, ex.c.call_variant.get(key.split("::")[-1], None))
     c = None
-    for v in ([variant] if variant else []) + [ex.c.variant, "default"]:
+    for v in ([variant] if variant else []) + [ex.c.variant, ex.c.variant.split("_")[0], ex.c.variant[:3], "default"]:
         if (key, v) in REGISTRY:
             c = REGISTRY[(key, v)]
             break
@@ -490,11 +490,15 @@ def L_isinstance(ex, st, node, a, b):
     raise Unsupported("isinstance outside the Dekad model")
 
 
-def L_zeros(ex, st, node, shape, dtype=None, **kw):
+def L_zeros(ex, st, node, shape=None, dtype=None, **kw):
+    if shape is None:
+        shape = kw.get("shape")
     return ex.const_array(st, shape_of(ex, shape), dtype_of(ex, dtype if dtype is not None else kw.get("dtype")), 0, "zeros")
 
 
-def L_ones(ex, st, node, shape, dtype=None, **kw):
+def L_ones(ex, st, node, shape=None, dtype=None, **kw):
+    if shape is None:
+        shape = kw.get("shape")
     return ex.const_array(st, shape_of(ex, shape), dtype_of(ex, dtype if dtype is not None else kw.get("dtype")), 1, "ones")
 
 
@@ -626,6 +630,16 @@ def L_np_where(ex, st, node, cond, *rest):
         return ex.elementwise(st, shape, dt, fn, "where")
     cond = flat1(ex, st, cond)
     n = zint(cond.shape[0])
+    wcache = ex.ctx.__dict__.setdefault("where_cache", {})
+    wkey = st.heap[cond.oid].get_id()
+    if wkey in wcache:
+        pos, facts, keep = wcache[wkey]
+        st.heap.setdefault(pos.oid, keep)
+        for f in facts:
+            if not any(h.eq(f) for h in st.pc):
+                st.assume(f, tag="lib:where")
+        return Tup([pos])
+    npc0 = len(st.pc)
     cnt = fresh("nwhere", z3.IntSort())
     pos = ex.new_array(st, (cnt,), "i8", None, "where")
     P = st.heap[pos.oid]
@@ -645,6 +659,8 @@ def L_np_where(ex, st, node, cond, *rest):
         st.assume(qforall([j], z3.Implies(z3.And(j >= 0, j < n, mj), z3.And(rank(j) >= 0, rank(j) < cnt, P[rank(j)] == j))))
     ex.ctx.where_rank = getattr(ex.ctx, "where_rank", {})
     ex.ctx.where_rank[pos.oid] = rank
+    wcache[wkey] = (pos, list(st.pc[npc0:]), st.heap[pos.oid])
+    ex.ctx.keep = getattr(ex.ctx, "keep", []) + [st.heap[cond.oid]]
     return Tup([pos])
 
 
@@ -697,13 +713,37 @@ def L_sqrt(ex, st, node, a):
     return ex.fm.call("sqrt", ex.tofloat(a))
 
 
+def L_median(name):
+    def h(ex, st, node, a, *r, **kw):
+        a = flat1(ex, st, a)
+        ex.ctx.assumed.add(f"numpy.{name}: uninterpreted function of the array (order statistic)")
+        key = ("median", name)
+        f = ex.ctx.valfn.get(key)
+        if f is None:
+            f = z3.Function(f"np!{name}", ex.ctx.arr_sort("f8", 1), z3.IntSort(), ex.fm.sort)
+            ex.ctx.valfn[key] = f
+        src = a if a.dtype in ("f8", "f4") else ex.copy_array(st, a, "f8")
+        return f(st.heap[src.oid], zint(a.shape[0]))
+    return h
+
+
+def L_unique(ex, st, node, a, *r, **kw):
+    """np.unique: strictly increasing array with the same set of values (assumed); only its length bound is modelled"""
+    a = flat1(ex, st, a)
+    n = zint(a.shape[0])
+    cnt = fresh("nunique", z3.IntSort())
+    st.assume(z3.And(cnt >= 0, cnt <= n, z3.Implies(n >= 1, cnt >= 1)), tag="lib:unique")
+    return ex.new_array(st, (cnt,), a.dtype, None, "unique")
+
+
 LIB = {
     "builtins.range": L_range, "numba.prange": L_prange, "builtins.len": L_len, "builtins.abs": L_abs, "builtins.min": L_min,
     "builtins.max": L_max, "builtins.int": L_int, "builtins.float": L_float, "builtins.round": L_round, "builtins.pow": L_pow,
     "numpy.zeros": L_zeros, "numpy.ones": L_ones, "numpy.full": L_full, "numpy.full_like": L_full_like,
     "numpy.zeros_like": L_zeros_like, "numpy.sum": L_np_sum, "numpy.abs": L_np_abs, "numpy.round": L_np_round,
     "numpy.isnan": L_isnan, "numpy.isinf": L_isinf, "numpy.array": L_np_array, "numpy.where": L_np_where,
-    "numpy.arange": L_arange, "numpy.sqrt": L_sqrt, "math.sqrt": L_sqrt, "math.log": ufun1("log"), "math.erf": ufun1("erf"),
+    "numpy.arange": L_arange, "numpy.median": L_median("median"), "numpy.nanmedian": L_median("nanmedian"), "numpy.unique": L_unique,
+    "numpy.log10": ufun1("log10"), "numpy.sqrt": L_sqrt, "math.sqrt": L_sqrt, "math.log": ufun1("log"), "math.erf": ufun1("erf"),
     "numpy.cos": ufun1("cos"), "scipy.special.digamma": ufun1("digamma"), "scipy.special.ndtri": ufun1("ndtri"),
     "scipy.special.gammainc": ufun2("gammainc"),
     "numba.core.types.float64": L_cast("f8"), "numba.core.types.float32": L_cast("f4"), "numba.core.types.int64": L_cast("i8"),
